@@ -423,6 +423,20 @@ def set_order(repo, chk):
                 p = par.get(n)
                 wrapped = isinstance(p, ast.Call) and ((isinstance(p.func, ast.Name) and p.func.id in COMMUTATIVE_WRAPPERS) or (f.module.dotted(p.func) or '') in COMMUTATIVE_WRAPPERS)
                 g = next(g for g in n.generators if st.is_set(g.iter))
+                # a lazy generator (possibly through map / filter / another generator) that is the iterable of a for loop: the loop body is the consumer
+                top, q = n, p
+                while isinstance(n, ast.GeneratorExp) and q is not None and ((isinstance(q, ast.Call) and isinstance(q.func, ast.Name) and q.func.id in ('map', 'filter', 'iter') and top in q.args)
+                                                                           or (isinstance(q, ast.comprehension) and q.iter is top) or (isinstance(q, ast.GeneratorExp) and any(c.iter is top or c is top for c in q.generators))):
+                    top, q = q, par.get(q)
+                if isinstance(n, ast.GeneratorExp) and isinstance(q, ast.For) and q.iter is top:
+                    kind, node, why = _classify_loop(f, q, par)
+                    if kind == 'sink':
+                        chk.bad('C09.5', 'R10', f.site(q), f'for {ast.unparse(q.target)} in {ast.unparse(q.iter)[:80]}: ... {ast.unparse(node)[:70]}', f'iteration over a set {why}: string hashing is randomised per process, so the resulting order differs between processes')
+                    elif kind == 'unknown':
+                        chk.unsure('C09.5', 'R10', f.site(q), f'for {ast.unparse(q.target)} in {ast.unparse(q.iter)[:80]}', f'cannot classify the consumer of this set iteration ({why})')
+                    else:
+                        chk.ok('C09.5', 'R10', f.site(q), f'for {ast.unparse(q.target)} in {ast.unparse(q.iter)[:80]}', f'commutative consumer: {why}')
+                    continue
                 if wrapped:
                     chk.ok('C09.5', 'R10', f.site(n), ast.unparse(p)[:100], 'order-blind consumer of the comprehension')
                 elif isinstance(n, ast.GeneratorExp) and isinstance(p, ast.Call) and isinstance(p.func, ast.Attribute) and p.func.attr == 'join':
